@@ -38,6 +38,8 @@ RULE = (
     "reference run), or, for density and cognitive strategies, a chunk in "
     "which a later instance passes the density filter while an earlier one "
     "does not.")
+RULE += (" Further generated dimensions (added while closing seeded "
+         "changes): " + 'queried indices handed to update as int32 arrays; budgets with non-integer reciprocal (0.15, 0.35, 0.6, free floats); per-instance utility_weight' + ".")
 ASSUMPTIONS = [
     "chunking invariance (b) is checked for FixedUncertainty-, "
     "VariableUncertainty-, Split-, Random-BudgetManager, "
